@@ -79,6 +79,49 @@ def run(ck: Check):
             n = sum(1 for x, y in zip(a["compiled"], b["compiled"]) if x != y)
             ck.disagree("library loaded in another process computes something else than the compiling instance",
                         dict(case, differing_rows=n), signature={"what": "lib-roundtrip", "W": p["W"]})
+    # a checkpoint of a layer with another geometry must not install wiring that does not fit (F33): either the load is refused or the
+    # layer afterwards still computes with wires inside its own input / windows at its own positions
+    from torchlogix.layers import LogicDense, LogicConv2d
+    import torch
+    probes = [("dense-wider-input", lambda: LogicDense(10, 8, device="cpu"), lambda: LogicDense(4, 8, device="cpu")),
+              ("dense-more-neurons", lambda: LogicDense(6, 9, device="cpu"), lambda: LogicDense(6, 8, device="cpu")),
+              ("conv-bigger-field", lambda: LogicConv2d(in_dim=(8, 8), device="cpu", channels=3, num_kernels=2, tree_depth=1, receptive_field_size=3),
+               lambda: LogicConv2d(in_dim=(4, 4), device="cpu", channels=1, num_kernels=2, tree_depth=1, receptive_field_size=2)),
+              ("conv-other-stride", lambda: LogicConv2d(in_dim=(3, 3), device="cpu", channels=1, num_kernels=2, tree_depth=1, receptive_field_size=2, stride=1),
+               lambda: LogicConv2d(in_dim=(5, 5), device="cpu", channels=1, num_kernels=2, tree_depth=1, receptive_field_size=2, stride=2)),
+              ("conv-same-geometry", lambda: LogicConv2d(in_dim=(4, 4), device="cpu", channels=2, num_kernels=2, tree_depth=1, receptive_field_size=2, padding=1),
+               lambda: LogicConv2d(in_dim=(4, 4), device="cpu", channels=2, num_kernels=2, tree_depth=1, receptive_field_size=2, padding=1))]
+    for name, mk_src, mk_dst in probes:
+        torch.manual_seed(ck.seed + 1)
+        src = mk_src()
+        torch.manual_seed(ck.seed + 2)
+        dst = mk_dst()
+        ck.case({"kind": "foreign-checkpoint", "name": name}, nontrivial=True, kind="foreign-checkpoint")
+        try:
+            dst.load_state_dict(src.state_dict())
+            loaded = True
+        except Exception:
+            loaded = False
+        if name == "conv-same-geometry":
+            same = loaded and all(torch.equal(a, b) for la, lb in zip(src.indices, dst.indices) for a, b in zip(la, lb))
+            if not same:
+                ck.disagree("a checkpoint of a layer with the same geometry is not restored exactly", {"name": name, "loaded": loaded},
+                            signature={"what": "same-geometry-roundtrip"})
+            continue
+        if not loaded:
+            continue
+        # accepted: the wiring must fit the receiving layer and sit at the receiving layer's own window positions
+        if isinstance(dst, LogicDense):
+            ok = all(int(i.max()) < dst.in_dim and int(i.min()) >= 0 and i.shape == (dst.out_dim,) for i in dst.indices)
+        else:
+            fresh = dst.get_indices_from_kernel_pairs(dst.kernel_pairs)
+            ok = all(torch.equal(a, b) for a, b in zip(fresh[0], dst.indices[0]))
+            lim = [v + 2 * (dst.padding or 0) for v in dst.in_dim] + [dst.channels]
+            mx = dst.indices[0][0].reshape(-1, len(lim)).max(0).values.tolist()
+            ok = ok and all(v < L for v, L in zip(mx, lim))
+        if not ok:
+            ck.disagree("load_state_dict accepted a checkpoint of a layer with another geometry and installed wiring that does not fit",
+                        {"name": name}, signature={"what": "foreign-checkpoint", "name": name})
     return ck.finish()
 
 
